@@ -1,56 +1,125 @@
 (* C09: parseFmtTypes is total; the run-time errors; sprintf never panics and
    the modelled fmt.Sprintf never runs out of fuel. *)
 From Verif Require Import Lib.Base Lib.Dyadic Lib.Utf8 Model.Printf
-  Proofs.PrintfSpec Proofs.PrintfBase Proofs.PrintfDir.
+  Proofs.PrintfSpec Proofs.PrintfBase Proofs.PrintfDir Proofs.PrintfScan.
 
-(* ---- totality ---- *)
-Lemma pft_total s : forall m,
-  match pft m s with
-  | Ok (g, ts) => length g = length s
+(* ---- what parseFmtTypes guarantees about the recorded '*' precisions ----
+   each TyP has its offset, the offsets point at two bytes inside the format, they
+   increase by at least 2, and a TyP is always followed by the type of its conversion *)
+Fixpoint stars_ok (ts : list ty) (st : list Z) (lo len : Z) : Prop :=
+  match ts with
+  | [] => st = []
+  | TyP :: ts' =>
+      match st with
+      | [] => False
+      | off :: st' => lo <= off /\ off + 2 <= len /\ ts' <> [] /\ stars_ok ts' st' (off + 2) len
+      end
+  | _ :: ts' => stars_ok ts' st lo len
+  end.
+
+Lemma stars_ok_weaken ts : forall st lo lo' len, stars_ok ts st lo len -> lo' <= lo -> stars_ok ts st lo' len.
+Proof.
+  induction ts as [|t r IH]; intros st lo lo' len H L; [exact H|].
+  destruct t; cbn [stars_ok] in *; try (eapply IH; eassumption).
+  destruct st as [|off st']; [exact H|]. destruct H as (A & B & C & D). repeat split; try assumption. lia.
+Qed.
+
+Definition lo_of (m : pmode) (pos : Z) : Z := match m with PDot => pos - 1 | _ => pos end.
+
+Definition pft_post (m : pmode) (pos : Z) (r : res pres) : Prop :=
+  match r with
+  | Ok (g, ts, st) => stars_ok ts st (lo_of m pos) (pos + zlen g) /\ (m = PPrecDone -> ts <> [])
   | Err e => e = err_expected \/ exists c, e = err_invalid c
   | Panic | Unmod => False
   end.
+
+Lemma verb_info_not_p c c' t' : verb_info c = Some (c', t') -> t' <> TyP.
 Proof.
-  induction s as [|c t IH]; intros m.
-  - destruct m; cbn [pft]; auto.
-  - assert (Hco : forall c' tys r,
-              match r with Ok (g, ts) => length g = length t | Err e => e = err_expected \/ exists c, e = err_invalid c | _ => False end ->
-              match cons_out c' tys r with Ok (g, ts) => length g = length (c :: t) | Err e => e = err_expected \/ exists c, e = err_invalid c | _ => False end).
-    { intros c' tys r H. destruct r as [[g ts]|e| |]; cbn [cons_out]; try exact H. cbn [length]. f_equal. exact H. }
-    destruct m; cbn [pft].
-    + destruct (c =? 37); apply Hco; apply IH.
-    + destruct (c =? 37); [apply Hco; apply IH|].
-      destruct (is_fmtch c); [apply Hco; apply IH|].
-      destruct (verb_info c) as [[c' t']|]; [apply Hco; apply IH | right; exists c; reflexivity].
-    + destruct (is_fmtch c); [apply Hco; apply IH|].
-      destruct (verb_info c) as [[c' t']|]; [apply Hco; apply IH | right; exists c; reflexivity].
+  unfold verb_info. intros H.
+  repeat match type of H with (if ?b then _ else _) = _ => destruct b end; try discriminate;
+    injection H as _ <-; discriminate.
 Qed.
 
+Lemma post_cons m m' pos c tys r : pft_post m' (pos + 1) r -> m <> PPrecDone ->
+  (tys = [] \/ tys = [TyD]) -> pft_post m pos (cons_out c tys [] r).
+Proof.
+  intros H Hm Ht. destruct r as [[[g ts] st]|e| |]; cbn [cons_out pft_post] in *; try exact H.
+  destruct H as [H _]. split; [|intros E; contradiction].
+  rewrite zlen_cons. replace (pos + (1 + zlen g)) with (pos + 1 + zlen g) by lia.
+  assert (S : stars_ok ts st (lo_of m pos) (pos + 1 + zlen g)).
+  { eapply stars_ok_weaken; [exact H|]. destruct m, m'; cbn [lo_of]; lia. }
+  destruct Ht as [->| ->]; exact S.
+Qed.
+
+Lemma post_verb m pos c c' t' k (l : bytes) r : verb_info c = Some (c', t') -> pft_post PLit (pos + k) r ->
+  zlen l = k -> 0 <= k ->
+  pft_post m pos (match r with Ok (o, ts, st) => Ok (l ++ o, t' :: ts, st) | e => e end).
+Proof.
+  intros Hv H Hl Hk. destruct r as [[[g ts] st]|e| |]; cbn [pft_post] in *; try exact H.
+  destruct H as [H _]. split; [|intros _; discriminate].
+  pose proof (verb_info_not_p _ _ _ Hv) as Np.
+  rewrite zlen_app, Hl. replace (pos + (k + zlen g)) with (pos + k + zlen g) by lia.
+  assert (S : stars_ok ts st (lo_of m pos) (pos + k + zlen g)).
+  { eapply stars_ok_weaken; [exact H|]. cbn [lo_of]. destruct m; cbn [lo_of]; lia. }
+  destruct t'; try exact S. congruence.
+Qed.
+
+Lemma pft_inv s : forall m pos, pft_post m pos (pft m pos s).
+Proof.
+  induction s as [|c t IH]; intros m pos.
+  - destruct m; cbn [pft pft_post stars_ok]; auto. split; [reflexivity | discriminate].
+  - assert (V : pft_post m pos
+      match verb_info c with
+      | Some (c', t') =>
+          if ((c' =? 103) || (c' =? 71)) && negb (has_prec m)
+          then cons_out 46 [] [] (cons_out 54 [] [] (cons_out c' [t'] [] (pft PLit (pos + 3) t)))
+          else cons_out c' [t'] [] (pft PLit (pos + 1) t)
+      | None => Err (err_invalid c)
+      end).
+    { destruct (verb_info c) as [[c' t']|] eqn:Hv; [|cbn [pft_post]; right; exists c; reflexivity].
+      destruct (((c' =? 103) || (c' =? 71)) && negb (has_prec m)).
+      - pose proof (post_verb m pos c c' t' 3 [46; 54; c'] (pft PLit (pos + 3) t) Hv (IH PLit (pos + 3)) eq_refl ltac:(lia)) as P.
+        destruct (pft PLit (pos + 3) t) as [[[g ts] st]|e| |]; exact P.
+      - pose proof (post_verb m pos c c' t' 1 [c'] (pft PLit (pos + 1) t) Hv (IH PLit (pos + 1)) eq_refl ltac:(lia)) as P.
+        destruct (pft PLit (pos + 1) t) as [[[g ts] st]|e| |]; exact P. }
+    assert (N : forall m', m <> PPrecDone -> pft_post m pos (cons_out c [] [] (pft m' (pos + 1) t))).
+    { intros m' Hm. apply (post_cons m m'); [apply IH | exact Hm | left; reflexivity]. }
+    destruct m; cbn [pft].
+    + destruct (c =? 37); apply N; discriminate.
+    + destruct (c =? 37); [apply N; discriminate|]. destruct (is_flagch c); [apply N; discriminate|].
+      destruct (c =? 42); [apply (post_cons PPct PWidthDone); [apply IH | discriminate | right; reflexivity]|].
+      destruct (is_digit c); [apply N; discriminate|]. destruct (c =? 46); [apply N; discriminate|]. exact V.
+    + destruct (is_flagch c); [apply N; discriminate|].
+      destruct (c =? 42); [apply (post_cons PFlags PWidthDone); [apply IH | discriminate | right; reflexivity]|].
+      destruct (is_digit c); [apply N; discriminate|]. destruct (c =? 46); [apply N; discriminate|]. exact V.
+    + destruct (is_digit c); [apply N; discriminate|]. destruct (c =? 46); [apply N; discriminate|]. exact V.
+    + destruct (c =? 46); [apply N; discriminate|]. exact V.
+    + destruct (c =? 42).
+      * pose proof (IH PPrecDone (pos + 1)) as P.
+        destruct (pft PPrecDone (pos + 1) t) as [[[g ts] st]|e| |]; cbn [cons_out pft_post] in *; try exact P.
+        destruct P as [P Q]. split; [|intros E; discriminate E].
+        cbn [app stars_ok lo_of]. rewrite zlen_cons. pose proof (zlen_nonneg g).
+        repeat split; try lia; [exact (Q eq_refl)|].
+        replace (pos - 1 + 2) with (pos + 1) by lia. replace (pos + (1 + zlen g)) with (pos + 1 + zlen g) by lia. exact P.
+      * destruct (is_digit c); [apply N; discriminate|]. exact V.
+    + destruct (is_digit c); [apply N; discriminate|]. exact V.
+    + exact V.
+Qed.
+
+(* parseFmtTypes is total: one of two format errors, or a translated format with consistent bookkeeping *)
 Theorem fmt_parse_total s :
   (exists e, parse_fmt_types s = Err e /\ (e = err_expected \/ exists c, e = err_invalid c)) \/
-  (exists g ts, parse_fmt_types s = Ok (g, ts) /\ length g = length s).
+  (exists g ts st, parse_fmt_types s = Ok (g, ts, st) /\ stars_ok ts st 0 (zlen g)).
 Proof.
-  unfold parse_fmt_types. pose proof (pft_total s PLit) as H.
-  destruct (pft PLit s) as [[g ts]|e| |]; try contradiction.
-  - right. exists g, ts. auto.
+  unfold parse_fmt_types. pose proof (pft_inv s PLit 0) as H.
+  destruct (pft PLit 0 s) as [[[g ts] st]|e| |]; cbn [pft_post lo_of] in H; try contradiction.
+  - right. exists g, ts, st. split; [reflexivity|]. rewrite Z.add_0_l in H. exact (proj1 H).
   - left. exists e. auto.
 Qed.
 
-(* sprintf takes exactly one AWK argument per type *)
-Lemma conv_args_length chars ffmt ts : forall args i gs,
-  conv_args chars ffmt ts args i = Ok gs -> length gs = length ts.
-Proof.
-  induction ts as [|t r IH]; intros args i gs H; cbn [conv_args] in H.
-  - injection H as <-. reflexivity.
-  - destruct (index args i) as [a| | |]; cbn [rbind] in H; try discriminate.
-    destruct (conv_arg chars ffmt t a) as [g| | |]; cbn [rbind] in H; try discriminate.
-    destruct (conv_args chars ffmt r args (i + 1)) as [gs'| | |] eqn:E; cbn [rbind] in H; try discriminate.
-    injection H as <-. cbn [length]. f_equal. exact (IH _ _ _ E).
-Qed.
-
 (* ---- run-time errors ---- *)
-Theorem too_few_args_error chars ffmt s g ts args :
-  parse_fmt_types s = Ok (g, ts) -> zlen args < zlen ts ->
+Theorem too_few_args_error chars ffmt s g ts st args :
+  parse_fmt_types s = Ok (g, ts, st) -> zlen args < zlen ts ->
   sprintf chars ffmt s args = Err (err_args (zlen args) (zlen ts)).
 Proof.
   intros H L. unfold sprintf. rewrite H.
@@ -58,79 +127,76 @@ Proof.
 Qed.
 
 (* parsing is compositional after a complete prefix *)
-Lemma pft_app a : forall m b ga ta, pft m a = Ok (ga, ta) ->
-  pft m (a ++ b) = match pft PLit b with Ok (gb, tb) => Ok (ga ++ gb, ta ++ tb) | e => e end.
+Lemma pft_app a : forall m pos b ga ta sa, pft m pos a = Ok (ga, ta, sa) ->
+  pft m pos (a ++ b) = prepend ga ta sa (pft PLit (pos + zlen ga) b).
 Proof.
-  induction a as [|c t IH]; intros m b ga ta H.
-  - destruct m; cbn [pft] in H; try discriminate. injection H as <- <-. cbn [app].
-    destruct (pft PLit b) as [[gb tb]| | |]; reflexivity.
-  - assert (Hco : forall m' c' tys, cons_out c' tys (pft m' t) = Ok (ga, ta) ->
-        cons_out c' tys (pft m' (t ++ b)) = match pft PLit b with Ok (gb, tb) => Ok (ga ++ gb, ta ++ tb) | e => e end).
-    { intros m' c' tys Hc. destruct (pft m' t) as [[g0 t0]| | |] eqn:E; cbn [cons_out] in Hc; try discriminate.
-      injection Hc as <- <-. rewrite (IH m' b g0 t0 E). destruct (pft PLit b) as [[gb tb]| | |]; cbn [cons_out]; try reflexivity.
-      rewrite <- app_assoc. reflexivity. }
-    destruct m; cbn [pft app] in H |- *.
-    + destruct (c =? 37); apply Hco; exact H.
-    + destruct (c =? 37); [apply Hco; exact H|].
-      destruct (is_fmtch c); [apply Hco; exact H|].
-      destruct (verb_info c) as [[c' t']|]; [apply Hco; exact H | discriminate].
-    + destruct (is_fmtch c); [apply Hco; exact H|].
-      destruct (verb_info c) as [[c' t']|]; [apply Hco; exact H | discriminate].
+  induction a as [|c t IH]; intros m pos b ga ta sa H.
+  - destruct m; cbn [pft] in H; try discriminate. injection H as <- <- <-. cbn [app].
+    rewrite zlen_nil, Z.add_0_r, prepend_nil. reflexivity.
+  - assert (Hco : forall m' pos' (l : bytes) tys sts, pos' = pos + zlen l ->
+              prepend l tys sts (pft m' pos' t) = Ok (ga, ta, sa) ->
+              prepend l tys sts (pft m' pos' (t ++ b)) = prepend ga ta sa (pft PLit (pos + zlen ga) b)).
+    { intros m' pos' l tys sts Hp Hc. destruct (pft m' pos' t) as [[[g0 t0] s0]| | |] eqn:E; cbn [prepend] in Hc; try discriminate.
+      injection Hc as <- <- <-. rewrite (IH m' _ b g0 t0 s0 E). rewrite prepend_prepend.
+      f_equal. f_equal. rewrite zlen_app. lia. }
+    cbn [app pft] in H |- *.
+    repeat match goal with
+           | Hx : context [if ?b then _ else _] |- _ => destruct b
+           | Hx : context [match verb_info c with Some _ => _ | None => _ end] |- _ => destruct (verb_info c) as [[c' t']|]
+           | Hx : context [match m with PLit => _ | _ => _ end] |- _ => destruct m
+           end; try discriminate;
+    rewrite ?cons_out_prepend, ?prepend_prepend in *;
+    (eapply Hco; [ | eassumption ]); unfold zlen; cbn [length app]; lia.
 Qed.
 
-Lemma pft_run_invalid run : forall c rest, forallb is_fmtch run = true -> verb_info c = None -> is_fmtch c = false ->
-  pft PFlags (run ++ c :: rest) = Err (err_invalid c).
+(* the byte after a specification prefix is no conversion character: a run-time error,
+   after any accepted prefix of the format.  [is_verb_pos] says that the byte cannot
+   continue the specification (it is not a further flag / digit / '*' / '.' where one
+   may stand): this covers the unknown conversions as well as flags, '*' and '.' that
+   come after the width or the precision (%5-d, %.3.2f, %*5d, %5*d) *)
+Theorem unknown_verb_error chars ffmt pre gp tp sp fl w p c rest args :
+  parse_fmt_types pre = Ok (gp, tp, sp) ->
+  forallb is_flag fl = true -> wf_w w = true -> wf_p p = true ->
+  verb_info c = None -> is_verb_pos (mode_wp w p) c = true ->
+  (fl = [] -> w = WNone -> p = PrNone -> (c =? 37) = false) ->
+  sprintf chars ffmt (pre ++ 37 :: spec_text fl w p ++ c :: rest) args = Err (s_fmterr ++ err_invalid c).
 Proof.
-  induction run as [|x r IH]; intros c rest H Hv Hc.
-  - cbn [app pft]. rewrite Hc, Hv. reflexivity.
-  - cbn [forallb] in H. apply andb_true_iff in H as [Hx Hr]. cbn [app pft]. rewrite Hx.
-    rewrite (IH c rest Hr Hv Hc). reflexivity.
+  intros Hp Hfl Hw Hpp Hv Hpos H37. unfold sprintf, parse_fmt_types in *. rewrite (pft_app pre PLit 0 _ gp tp sp Hp).
+  cbn [pft]. change (37 =? 37) with true. cbv iota. rewrite cons_out_prepend.
+  rewrite pft_pct_flags by (apply spec_head; assumption).
+  rewrite (pft_spec _ _ _ _ _ Hfl Hw Hpp). rewrite (pft_at_verb _ _ _ _ Hpos). rewrite Hv. reflexivity.
 Qed.
 
-Lemma pft_run_incomplete run : forallb is_fmtch run = true -> pft PFlags run = Err err_expected.
+(* a format ending inside a conversion specification: a run-time error *)
+Theorem incomplete_spec_error chars ffmt pre gp tp sp fl w p args :
+  parse_fmt_types pre = Ok (gp, tp, sp) ->
+  forallb is_flag fl = true -> wf_w w = true -> wf_p p = true ->
+  sprintf chars ffmt (pre ++ 37 :: spec_text fl w p) args = Err (s_fmterr ++ err_expected).
 Proof.
-  induction run as [|x r IH]; intros H; [reflexivity|].
-  cbn [forallb] in H. apply andb_true_iff in H as [Hx Hr]. cbn [pft]. rewrite Hx, (IH Hr). reflexivity.
-Qed.
-
-(* an unknown conversion character, after any well-formed prefix: a run-time error *)
-Theorem unknown_verb_error chars ffmt pre gp tp run c rest args :
-  parse_fmt_types pre = Ok (gp, tp) -> forallb is_fmtch run = true ->
-  verb_info c = None -> is_fmtch c = false -> (run = [] -> c <> 37) ->
-  sprintf chars ffmt (pre ++ 37 :: run ++ c :: rest) args = Err (s_fmterr ++ err_invalid c).
-Proof.
-  intros Hp Hrun Hv Hc H37. unfold sprintf, parse_fmt_types in *. rewrite (pft_app pre PLit _ gp tp Hp).
-  cbn [pft]. change (37 =? 37) with true. cbv iota.
-  assert (E : pft PPct (run ++ c :: rest) = Err (err_invalid c)).
-  { destruct run as [|x r].
-    - cbn [app pft]. replace (c =? 37) with false by (symmetry; apply Z.eqb_neq; apply H37; reflexivity).
-      rewrite Hc, Hv. reflexivity.
-    - pose proof Hrun as Hall. cbn [forallb] in Hrun. apply andb_true_iff in Hrun as [Hx Hr]. cbn [app pft].
-      assert (x =? 37 = false) as ->.
-      { destruct (x =? 37) eqn:E; [|reflexivity]. apply Z.eqb_eq in E. subst x. discriminate. }
-      rewrite Hx. rewrite (pft_run_invalid r c rest Hr Hv Hc). reflexivity. }
-  rewrite E. reflexivity.
-Qed.
-
-(* a format that ends inside a conversion specification: a run-time error *)
-Theorem incomplete_spec_error chars ffmt pre gp tp run args :
-  parse_fmt_types pre = Ok (gp, tp) -> forallb is_fmtch run = true ->
-  sprintf chars ffmt (pre ++ 37 :: run) args = Err (s_fmterr ++ err_expected).
-Proof.
-  intros Hp Hrun. unfold sprintf, parse_fmt_types in *. rewrite (pft_app pre PLit _ gp tp Hp).
-  cbn [pft]. change (37 =? 37) with true. cbv iota.
-  assert (E : pft PPct run = Err err_expected).
-  { destruct run as [|x r]; [reflexivity|].
-    pose proof Hrun as Hall. cbn [forallb] in Hrun. apply andb_true_iff in Hrun as [Hx Hr]. cbn [pft].
-    assert (x =? 37 = false) as ->.
-    { destruct (x =? 37) eqn:E; [|reflexivity]. apply Z.eqb_eq in E. subst x. discriminate. }
-    rewrite Hx, (pft_run_incomplete r Hr). reflexivity. }
+  intros Hp Hfl Hw Hpp. unfold sprintf, parse_fmt_types in *. rewrite (pft_app pre PLit 0 _ gp tp sp Hp).
+  cbn [pft]. change (37 =? 37) with true. cbv iota. rewrite cons_out_prepend.
+  assert (E : pft PPct (0 + zlen gp + 1) (spec_text fl w p) = Err err_expected).
+  { rewrite <- (app_nil_r (spec_text fl w p)).
+    rewrite pft_pct_flags.
+    - rewrite (pft_spec _ _ _ _ _ Hfl Hw Hpp). destruct (mode_wp w p) eqn:EM; try reflexivity.
+      destruct p as [|[|? ?]|]; try discriminate; destruct w; discriminate.
+    - unfold spec_text. destruct fl as [|f t].
+      + cbn [app]. destruct w as [|ds|]; cbn [render_w app].
+        * destruct p; cbn [render_p app]; try reflexivity; exact I.
+        * destruct ds as [|c0 t0]; [discriminate|]. cbn [wf_w] in Hw.
+          apply andb_true_iff in Hw as [Hw _]. apply andb_true_iff in Hw as [Hc0 _]. cbn [app]. apply (is_dig_facts c0 Hc0).
+        * reflexivity.
+      + cbn [app forallb] in *. apply andb_true_iff in Hfl as [Hf _]. unfold is_flag in Hf.
+        repeat (apply orb_true_iff in Hf as [Hf|Hf]); apply Z.eqb_eq in Hf; subst f; reflexivity. }
   rewrite E. reflexivity.
 Qed.
 
 (* ---- the modelled fmt.Sprintf: no panic, fuel suffices ---- *)
 Lemma print_arg_ok f a verb : (exists o, print_arg f a verb = Ok o) \/ print_arg f a verb = Unmod.
-Proof. destruct a; cbn [print_arg]; eauto. Qed.
+Proof.
+  destruct a; cbn [print_arg]; eauto.
+  repeat match goal with |- context [if ?b then _ else _] => destruct b end; eauto.
+Qed.
 
 Lemma go_flags_len s : forall f, (length (snd (go_flags s f)) <= length s)%nat.
 Proof.
@@ -256,10 +322,26 @@ Proof.
     + destruct chars; exact I.
 Qed.
 
-Lemma conv_args_no_panic chars ffmt ts : forall args i, (forall x, no_panic (ffmt x)) ->
-  0 <= i -> i + zlen ts <= zlen args -> no_panic (conv_args chars ffmt ts args i).
+Lemma slice_ok {A} (s : list A) lo hi : 0 <= lo -> lo <= hi -> hi <= zlen s ->
+  exists r, slice s lo hi = Ok r /\ zlen r = hi - lo.
 Proof.
-  induction ts as [|t r IH]; intros args i Hf Hi Hl; cbn [conv_args]; [exact I|].
+  intros A0 A1 A2. unfold slice.
+  replace (0 <=? lo) with true by (symmetry; apply Z.leb_le; lia).
+  replace (lo <=? hi) with true by (symmetry; apply Z.leb_le; lia).
+  replace (hi <=? zlen s) with true by (symmetry; apply Z.leb_le; lia). cbn [andb].
+  eexists. split; [reflexivity|]. rewrite zlen_ztake; [lia|]. rewrite zlen_zdrop by lia. lia.
+Qed.
+
+Lemma cons_arg_no_panic g r : no_panic r -> no_panic (cons_arg g r).
+Proof. destruct r as [[fm gs]| | |]; intros H; exact H. Qed.
+
+(* the conversion loop never panics on what parseFmtTypes produces *)
+Lemma conv_args_no_panic chars ffmt ts : forall args i fm st rm lo len, (forall x, no_panic (ffmt x)) ->
+  0 <= i -> i + zlen ts <= zlen args ->
+  stars_ok ts st lo len -> 0 <= rm <= lo -> zlen fm = len - rm ->
+  no_panic (conv_args chars ffmt ts args i fm st rm).
+Proof.
+  induction ts as [|t r IH]; intros args i fm st rm lo len Hf Hi Hl Hs Hrm Hfm; cbn [conv_args]; [exact I|].
   rewrite zlen_cons in Hl. pose proof (zlen_nonneg r).
   assert (E : exists a, index args i = Ok a).
   { unfold index. replace (0 <=? i) with true by (symmetry; apply Z.leb_le; lia).
@@ -267,57 +349,94 @@ Proof.
     destruct (nth_error args (Z.to_nat i)) eqn:N; [eauto|].
     apply nth_error_None in N. unfold zlen in *. lia. }
   destruct E as [a ->]. cbn [rbind].
-  pose proof (conv_arg_no_panic chars ffmt t a Hf) as P.
-  destruct (conv_arg chars ffmt t a); cbn [rbind]; try contradiction; try exact I.
-  specialize (IH args (i + 1) Hf ltac:(lia) ltac:(lia)).
-  destruct (conv_args chars ffmt r args (i + 1)); cbn [rbind]; try contradiction; exact I.
+  assert (Other : t <> TyP -> stars_ok r st lo len ->
+            no_panic (do g <- conv_arg chars ffmt t a; cons_arg g (conv_args chars ffmt r args (i + 1) fm st rm))).
+  { intros _ Hs'. pose proof (conv_arg_no_panic chars ffmt t a Hf) as P.
+    destruct (conv_arg chars ffmt t a); cbn [rbind]; try contradiction; try exact I.
+    apply cons_arg_no_panic. apply (IH args (i + 1) fm st rm lo len Hf); try assumption; lia. }
+  destruct t; try (apply Other; [discriminate | exact Hs]).
+  cbn [stars_ok] in Hs. destruct st as [|off st']; [contradiction|]. destruct Hs as (A & B & C & D).
+  destruct (f2i64 (v_num a) <? 0).
+  - destruct r as [|t2 r2]; [congruence|].
+    assert (Hslice : no_panic (do f1 <- slice fm 0 (off - rm); do f2 <- slice fm (off - rm + 2) (zlen fm);
+                               conv_args chars ffmt (t2 :: r2) args (i + 1) (f1 ++ f2) st' (rm + 2))).
+    { destruct (slice_ok fm 0 (off - rm) ltac:(lia) ltac:(lia) ltac:(lia)) as (f1 & -> & L1).
+      destruct (slice_ok fm (off - rm + 2) (zlen fm) ltac:(lia) ltac:(lia) ltac:(lia)) as (f2 & -> & L2).
+      cbn [rbind]. apply (IH args (i + 1) (f1 ++ f2) st' (rm + 2) (off + 2) len Hf); try assumption; try lia.
+      rewrite zlen_app. lia. }
+    destruct t2; try exact Hslice.
+    apply cons_arg_no_panic. apply (IH args (i + 1) fm st' rm (off + 2) len Hf); try assumption; lia.
+  - apply cons_arg_no_panic. apply (IH args (i + 1) fm st' rm (off + 2) len Hf); try assumption; lia.
 Qed.
 
 Theorem sprintf_no_panic chars ffmt format args :
   (forall x, no_panic (ffmt x)) -> no_panic (sprintf chars ffmt format args).
 Proof.
-  intros Hf. unfold sprintf. pose proof (pft_total format PLit) as T. unfold parse_fmt_types.
-  destruct (pft PLit format) as [[g ts]|e| |]; try contradiction; [|exact I].
+  intros Hf. unfold sprintf. pose proof (pft_inv format PLit 0) as T. unfold parse_fmt_types.
+  destruct (pft PLit 0 format) as [[[g ts] st]|e| |]; cbn [pft_post lo_of] in T; try contradiction; [|exact I].
+  destruct T as [T _]. rewrite Z.add_0_l in T.
   destruct (zlen ts >? zlen args) eqn:E; [exact I|].
   rewrite Z.gtb_ltb in E. apply Z.ltb_ge in E.
-  pose proof (conv_args_no_panic chars ffmt ts args 0 Hf ltac:(lia) ltac:(lia)) as P.
-  destruct (conv_args chars ffmt ts args 0) as [gs| | |]; cbn [rbind]; try contradiction; try exact I.
-  destruct (go_sprintf_total g gs) as [[o ->]| ->]; exact I.
+  pose proof (conv_args_no_panic chars ffmt ts args 0 g st 0 0 (zlen g) Hf ltac:(lia) ltac:(lia) T ltac:(lia) ltac:(lia)) as P.
+  destruct (conv_args chars ffmt ts args 0 g st 0) as [[fm gs]| | |]; cbn [rbind]; try contradiction; try exact I.
+  cbn [fst snd]. destruct (go_sprintf_total fm gs) as [[o ->]| ->]; exact I.
 Qed.
 
-(* and its only errors are the two format errors *)
+(* and its only errors are the format errors *)
+Lemma conv_arg_no_err chars ffmt t a m : (forall x, not_bad (ffmt x)) -> conv_arg chars ffmt t a <> Err m.
+Proof.
+  intros Hf Hm.
+  assert (Hs : forall m', v_str ffmt a <> Err m').
+  { intros m' Hm'. destruct a; cbn [v_str] in Hm'; try discriminate. unfold num_str in Hm'.
+    destruct x as [|[]|mm ee]; try discriminate. destruct (feq _ _); [discriminate|].
+    specialize (Hf (FFin mm ee)). rewrite Hm' in Hf. exact Hf. }
+  destruct t; cbn [conv_arg] in Hm; try discriminate.
+  - destruct (v_str ffmt a) eqn:ES; cbn [rbind] in Hm; try discriminate. exact (Hs _ eq_refl).
+  - unfold conv_c in Hm. destruct (v_is_true_str a) as [n isstr]. destruct isstr.
+    + destruct (v_str ffmt a) as [s| | |] eqn:ES; cbn [rbind] in Hm; try discriminate; [|exact (Hs _ eq_refl)].
+      destruct s as [|b0 t0]; [discriminate|]. destruct chars; [|discriminate].
+      unfold slice in Hm. destruct (_ && _ && _); discriminate.
+    + destruct chars; discriminate.
+Qed.
+
+Lemma cons_arg_err g r m : cons_arg g r = Err m -> r = Err m.
+Proof. destruct r as [[fm gs]| | |]; cbn [cons_arg]; intros H; try discriminate; exact H. Qed.
+
+Lemma conv_args_no_err chars ffmt ts : forall args i fm st rm m, (forall x, not_bad (ffmt x)) ->
+  conv_args chars ffmt ts args i fm st rm <> Err m.
+Proof.
+  induction ts as [|t r IH]; intros args i fm st rm m Hf H; cbn [conv_args] in H; [discriminate|].
+  destruct (index args i) as [a| | |] eqn:EI; cbn [rbind] in H; try discriminate.
+  2:{ unfold index in EI. destruct (_ && _); [destruct (nth_error _ _)|]; discriminate. }
+  assert (Other : (do g <- conv_arg chars ffmt t a; cons_arg g (conv_args chars ffmt r args (i + 1) fm st rm)) <> Err m).
+  { intros H'. destruct (conv_arg chars ffmt t a) as [g| | |] eqn:EC; cbn [rbind] in H'; try discriminate.
+    - apply cons_arg_err in H'. exact (IH _ _ _ _ _ _ Hf H').
+    - exact (conv_arg_no_err chars ffmt t a _ Hf EC). }
+  destruct t; try (exact (Other H)).
+  destruct st as [|off st']; [discriminate|].
+  destruct (f2i64 (v_num a) <? 0).
+  - destruct r as [|t2 r2]; [discriminate|].
+    assert (S : (do f1 <- slice fm 0 (off - rm); do f2 <- slice fm (off - rm + 2) (zlen fm);
+                 conv_args chars ffmt (t2 :: r2) args (i + 1) (f1 ++ f2) st' (rm + 2)) <> Err m).
+    { intros H'. unfold slice in H'. destruct (_ && _ && _); cbn [rbind] in H'; [|discriminate].
+      destruct (_ && _ && _); cbn [rbind] in H'; [|discriminate]. exact (IH _ _ _ _ _ _ Hf H'). }
+    destruct t2; try exact (S H). apply cons_arg_err in H. exact (IH _ _ _ _ _ _ Hf H).
+  - apply cons_arg_err in H. exact (IH _ _ _ _ _ _ Hf H).
+Qed.
+
 Theorem sprintf_errors chars ffmt format args e :
   (forall x, not_bad (ffmt x)) -> sprintf chars ffmt format args = Err e ->
   (exists c, e = s_fmterr ++ err_invalid c) \/ e = s_fmterr ++ err_expected \/
   exists got want, got < want /\ e = err_args got want.
 Proof.
-  intros Hf. unfold sprintf. pose proof (pft_total format PLit) as T. unfold parse_fmt_types.
-  destruct (pft PLit format) as [[g ts]|e0| |]; try contradiction.
+  intros Hf. unfold sprintf. pose proof (pft_inv format PLit 0) as T. unfold parse_fmt_types.
+  destruct (pft PLit 0 format) as [[[g ts] st]|e0| |]; cbn [pft_post] in T; try contradiction.
   - destruct (zlen ts >? zlen args) eqn:E.
     + intros [= <-]. right. right. exists (zlen args), (zlen ts). split; [|reflexivity].
       rewrite Z.gtb_ltb in E. apply Z.ltb_lt in E. exact E.
     + intros H. exfalso.
-      assert (C : forall ts args i gs', conv_args chars ffmt ts args i <> Err gs').
-      { clear - Hf. induction ts as [|t r IH]; intros args i gs' H; cbn [conv_args] in H; [discriminate|].
-        destruct (index args i) as [a| | |] eqn:EI; cbn [rbind] in H; try discriminate.
-        - assert (CA : forall m, conv_arg chars ffmt t a <> Err m).
-          { intros m Hm. assert (Hs : forall m', v_str ffmt a <> Err m').
-            { intros m' Hm'. destruct a; cbn [v_str] in Hm'; try discriminate. unfold num_str in Hm'.
-              destruct x as [|[]|mm ee]; try discriminate. destruct (feq _ _); [discriminate|].
-              specialize (Hf (FFin mm ee)). rewrite Hm' in Hf. exact Hf. }
-            destruct t; cbn [conv_arg] in Hm; try discriminate.
-            - destruct (v_str ffmt a) eqn:ES; cbn [rbind] in Hm; try discriminate. exact (Hs _ eq_refl).
-            - unfold conv_c in Hm. destruct (v_is_true_str a) as [n isstr]. destruct isstr.
-              + destruct (v_str ffmt a) as [s| | |] eqn:ES; cbn [rbind] in Hm; try discriminate; [|exact (Hs _ eq_refl)].
-                destruct s as [|b0 t0]; [discriminate|]. destruct chars; [|discriminate].
-                unfold slice in Hm. destruct (_ && _ && _); discriminate.
-              + destruct chars; discriminate. }
-          destruct (conv_arg chars ffmt t a) as [g0| | |] eqn:EC; cbn [rbind] in H; try discriminate; [|exact (CA _ eq_refl)].
-          destruct (conv_args chars ffmt r args (i + 1)) eqn:ER; cbn [rbind] in H; try discriminate.
-          exact (IH _ _ _ ER).
-        - unfold index in EI. destruct (_ && _); [destruct (nth_error _ _)|]; discriminate. }
-      destruct (conv_args chars ffmt ts args 0) as [gs| | |] eqn:EC; cbn [rbind] in H; try discriminate.
-      * destruct (go_sprintf_total g gs) as [[o Ho]| Ho]; rewrite Ho in H; discriminate.
-      * exact (C _ _ _ _ EC).
+      destruct (conv_args chars ffmt ts args 0 g st 0) as [[fm gs]| | |] eqn:EC; cbn [rbind] in H; try discriminate.
+      * cbn [fst snd] in H. destruct (go_sprintf_total fm gs) as [[o Ho]| Ho]; rewrite Ho in H; discriminate.
+      * exact (conv_args_no_err chars ffmt ts args 0 g st 0 _ Hf EC).
   - intros [= <-]. destruct T as [->|[c ->]]; [right; left; reflexivity | left; exists c; reflexivity].
 Qed.
